@@ -40,6 +40,13 @@ def run(ctx) -> None:
     ctx.reuse("C14.transfer-composition", c05.owner)
     ctx.reuse("C14.transfer-composition", c05.read_exact)
     ctx.reuse("C14.transfer-composition", c05.mix_args)
+    from . import objmodel
+
+    ctx.guard("C14.totals", objmodel.property_identity, "C14.totals", ("DilutionPlan",), "the plan reports other numbers than the ones its instructions were computed from")
+    ctx.guard("C14.execute-steps", objmodel.labware_model, "C14.execute-steps")
+    from . import c04 as _c04, c20 as _c20
+
+    ctx.reuse("C14.execute-steps", _c04.trough_alias)
     # volumes above the worklist's max_volume are split by partition_volume: the parts add up
     from . import c06
 
